@@ -340,7 +340,7 @@ func main() {
 	r.Set("header_specials", sp)
 
 	// own wall budget well inside the tier limits (60 s / 10 min); reaching it ends the run as not exhaustive
-	limit := 45 * time.Second
+	limit := 50 * time.Second
 	if thorough {
 		limit = 8*time.Minute + 45*time.Second
 	}
